@@ -9,7 +9,7 @@
     separated/handler contexts are not the surrounding one.  [catched t = Some e]: the goroutine
     read the separated scope after the body task finished; e = it had an error.  "begins" is the
     model event [EBodyBegin].  [rejected_any]: some handler submission was rejected. *)
-From GC Require Import Common.Base Model.Runner Model.Try Proofs.Runner Proofs.Runner2 Proofs.Try.
+From GC Require Import Common.Base Model.Runner Model.Try Proofs.Runner Proofs.Runner2 Proofs.Try Proofs.C16More.
 Local Open Scope nat_scope.
 
 (** The try system does nothing the open runner system cannot do: the body task, the tasks it
@@ -170,4 +170,187 @@ Qed.
 Example C16_not_rejected :
   forallb (fun e => match e with ESubmitted _ false => false | _ => true end)
           (log (rs (trun MFixed cancel_tb cancel_sched (tinit cancel_tb)))) = true.
+Proof. vm_compute. reflexivity. Qed.
+
+
+(** * Proof audit (Proofs/C16More.v).  The theorems below close the gaps named above.  Besides
+    [wf tb] they assume [fresh tb]: the separated context and the contexts of the defined handlers
+    are pairwise distinct and differ from the surrounding one (scope.New; all recorded cases use
+    1, 50, 51, 52, 53).  Their core is the call-stack discipline of the synchronous pip:run: in a
+    fresh context at most one task is live, so a context is failed only by its own live task, no
+    orphan (task created in a context that is already done) arises, and nothing is cancelled from
+    outside.  [desc s r x]: task [x] is [r] or was spawned, transitively, by [r]. *)
+
+(** A handler submission is never rejected: the premise [~ rejected_any] of C16_success_iff,
+    C16_fail_iff, C16_finally_always is void and the first disjunct of C16_containment_partial
+    never applies. *)
+Theorem C16_never_rejected : forall tb tsched, wf tb -> fresh tb ->
+  ~ rejected_any tb (rs (trun MFixed tb tsched (tinit tb))).
+Proof. exact never_rejected. Qed.
+Print Assumptions C16_never_rejected.
+
+(** What the goroutine read from the separated scope IS the outcome of the body task; in a final
+    state in which the body was accepted it has been read. *)
+Theorem C16_body_outcome : forall tb tsched, wf tb -> fresh tb ->
+  let t := trun MFixed tb tsched (tinit tb) in
+  (forall e, catched t = Some e -> exists x, T (rs t) (nb tb) x /\ t_st x = Finished (negb e))
+  /\ (forall x ok, tfinal t = true -> T (rs t) (nb tb) x -> t_st x = Finished ok -> catched t = Some (negb ok)).
+Proof.
+  intros tb tsched W F. split.
+  - exact (catched_outcome tb tsched W F).
+  - intros x ok. exact (final_catched tb tsched W F x ok).
+Qed.
+Print Assumptions C16_body_outcome.
+
+(** Supersedes C16_success_iff / C16_fail_iff / C16_finally_always in final states: no premise about
+    rejected submissions, and the guard is the outcome of the body TASK: finally has begun; success
+    has begun iff the body finished without error; fail has begun iff it finished with an error. *)
+Theorem C16_handlers_final : forall tb tsched x ok, wf tb -> fresh tb ->
+  let t := trun MFixed tb tsched (tinit tb) in
+  tfinal t = true -> T (rs t) (nb tb) x -> t_st x = Finished ok ->
+  (forall h, tb_finally tb = Some h -> In (EBodyBegin (s_name h) []) (log (rs t)))
+  /\ (forall h, tb_success tb = Some h -> (In (EBodyBegin (s_name h) []) (log (rs t)) <-> ok = true))
+  /\ (forall h, tb_fail tb = Some h -> (In (EBodyBegin (s_name h) []) (log (rs t)) <-> ok = false)).
+Proof. intros tb tsched x ok W F. exact (handlers_final tb tsched W F x ok). Qed.
+Print Assumptions C16_handlers_final.
+
+(** Supersedes C16_after_body_partial: every handler's body begins after the body task AND every
+    task it spawned, transitively, have finished (position in the newest-first log). *)
+Theorem C16_after_body_spawned : forall tb tsched a h c ws b, wf tb -> fresh tb ->
+  let t := trun MFixed tb tsched (tinit tb) in
+  In (h, c) (hpairs tb) -> log (rs t) = a ++ EBodyBegin (s_name h) ws :: b ->
+  forall x, desc (rs t) (nb tb) x -> exists ok, In (EFinished (t_name x) ok) b.
+Proof. intros tb tsched a h c ws b W F. exact (after_body_spawned tb tsched W F a h c ws b). Qed.
+Print Assumptions C16_after_body_spawned.
+
+(** The tasks of the separated context are exactly the body task and its descendants, and no task
+    of the try system is an orphan. *)
+Theorem C16_separated_is_spawned : forall tb tsched x, wf tb -> fresh tb ->
+  let t := trun MFixed tb tsched (tinit tb) in
+  In x (tasks (rs t)) -> (t_ctx x = tb_sep tb <-> desc (rs t) (nb tb) x) /\ t_orphan x = false.
+Proof.
+  intros tb tsched x W F t Hx. split; [exact (sep_is_spawned tb tsched W F x Hx) | exact (no_orphan tb tsched W F x Hx)].
+Qed.
+Print Assumptions C16_separated_is_spawned.
+
+(** Supersedes the first two parts of C16_containment_partial, with the converse: in a final state
+    the surrounding context is failed iff some handler task finished failed (iff the scope of a
+    started handler has an error) - whatever the body did. *)
+Theorem C16_containment_iff : forall tb tsched, wf tb -> fresh tb ->
+  let t := trun MFixed tb tsched (tinit tb) in
+  tfinal t = true ->
+  (ctx_failed (tb_par tb) (rs t) = true <->
+   exists h c x, In (h, c) (hpairs tb) /\ T (rs t) (s_name h) x /\ t_st x = Finished false)
+  /\ (ctx_failed (tb_par tb) (rs t) = true <->
+      exists h c, In (h, c) (hpairs tb) /\ registered (s_name h) (tasks (rs t)) = true /\ ctx_failed c (rs t) = true).
+Proof.
+  intros tb tsched W F t Hfin. split; [exact (containment_iff tb tsched W F Hfin) | exact (containment_scope_iff tb tsched W F Hfin)].
+Qed.
+Print Assumptions C16_containment_iff.
+
+(** begins => runs.  A handler task that closes carries the submitted script and has executed ALL
+    its commands, unless one of its own commands failed: a failing command, or a pip:run whose
+    submission was rejected or whose task finished failed ([OwnFail]: the commands before it ended
+    well).  It is never cut short by the body, by the other handler or by the surrounding scope. *)
+Theorem C16_handler_runs : forall tb tsched h c x, wf tb -> fresh tb ->
+  let t := trun MFixed tb tsched (tinit tb) in
+  In (h, c) (hpairs tb) -> T (rs t) (s_name h) x -> (t_st x = Closing \/ exists ok, t_st x = Finished ok) ->
+  t_body x = s_body h /\ (Completed (rs t) (s_name h) x \/ OwnFail (rs t) (s_name h) x).
+Proof. intros tb tsched h c x W F. exact (handler_runs tb tsched W F h c x). Qed.
+Print Assumptions C16_handler_runs.
+
+(** The same for every task of the try system (body, nested tasks, handlers), and in the log: a
+    command that ended with an error is never a plain succeeding command, and the read-execute loop
+    of no task ever sees its context done (the abort step is never enabled). *)
+Theorem C16_nothing_cancelled : forall tb tsched, wf tb -> fresh tb ->
+  let t := trun MFixed tb tsched (tinit tb) in
+  (forall n x, T (rs t) n x -> (t_st x = Closing \/ exists ok, t_st x = Finished ok) -> outcome (rs t) n x)
+  /\ (forall n x i, T (rs t) n x -> In (ECmdEnd n i false) (log (rs t)) -> nth_error (t_body x) i <> Some COk)
+  /\ (forall n, step false (LAbort n) (rs t) = None).
+Proof.
+  intros tb tsched W F. split; [|split].
+  - exact (task_runs tb tsched W F).
+  - exact (no_cancel tb tsched W F).
+  - exact (no_abort tb tsched W F).
+Qed.
+Print Assumptions C16_nothing_cancelled.
+
+(** Progress and termination (bodies whose nested submissions have no wait lists, cf.
+    C14_nested_wait_deadlock): a reachable state that is not final has an enabled step, and every
+    executed step decreases [tmeasure]; so every maximal run ends in a final state after at most
+    [tmeasure tb (tinit tb)] steps - the states the handler theorems talk about are reached. *)
+Theorem C16_progress : forall tb tsched, wf tb -> fresh tb -> flat_tb tb ->
+  let t := trun MFixed tb tsched (tinit tb) in
+  tfinal t = false -> exists l, tstep MFixed tb l t <> None.
+Proof. exact try_progress. Qed.
+Print Assumptions C16_progress.
+
+Theorem C16_steps_bounded : forall tb tsched,
+  teffective tb tsched (tinit tb) + tmeasure tb (trun MFixed tb tsched (tinit tb)) <= tmeasure tb (tinit tb).
+Proof. exact try_steps_bounded. Qed.
+Print Assumptions C16_steps_bounded.
+
+(** The hypothesis [fresh] carries weight: a well-formed block whose two handlers share one context
+    (not the surrounding one) violates C16_handler_runs and the third part of C16_nothing_cancelled -
+    the failing success handler cuts the finally handler short (it begins, executes none of its two
+    commands, finishes failed; its abort step is enabled).  This is what one scope for all handlers
+    would do (F37); the real handlers get a scope each. *)
+Theorem C16_shared_scope_refuted :
+  let t := trun MFixed shared_tb cancel_sched (tinit shared_tb) in
+  wf shared_tb /\ ~ fresh shared_tb
+  /\ tfinal t = true
+  /\ In (EBodyBegin 2%N []) (log (rs t))
+  /\ (forall i, ~ In (ECmdBegin 2%N i) (log (rs t)))
+  /\ (exists x, T (rs t) 2%N x /\ t_st x = Finished false /\ length (t_body x) = 2)
+  /\ step false (LAbort 2%N) (rs (trun MFixed shared_tb (firstn 15 cancel_sched) (tinit shared_tb))) <> None.
+Proof. exact shared_scope_refuted. Qed.
+Print Assumptions C16_shared_scope_refuted.
+
+(** * Non-vacuity of the new theorems.  [nest_tb]: the body's nested task 10 fails, so the body
+    fails; finally (2) and fail (3, which spawns 11) run, success (4) does not; the surrounding
+    context stays healthy.  [cancel_tb] (above): the body succeeds, the success handler fails. *)
+Example C16_audit_premises :
+  wf nest_tb /\ fresh nest_tb /\ flat_tb nest_tb /\ wf cancel_tb /\ fresh cancel_tb.
+Proof. exact (conj nest_wf (conj nest_fresh (conj nest_flat (conj cancel_wf cancel_fresh)))). Qed.
+
+Example C16_nest_run :
+  let t := trun MFixed nest_tb nest_sched (tinit nest_tb) in
+  tfinal t = true /\ catched t = Some true /\ ctx_failed (tb_par nest_tb) (rs t) = false
+  /\ map (fun x => (t_name x, t_st x, t_ctx x, t_parent x)) (tasks (rs t))
+     = [(1%N, Finished false, 50%N, None); (10%N, Finished false, 50%N, Some 1%N);
+        (2%N, Finished true, 51%N, None); (3%N, Finished true, 52%N, None); (11%N, Finished true, 52%N, Some 3%N)]
+  /\ In (EBodyBegin 2%N []) (log (rs t)) /\ In (EBodyBegin 3%N []) (log (rs t)) /\ ~ In (EBodyBegin 4%N []) (log (rs t))
+  /\ teffective nest_tb nest_sched (tinit nest_tb) = 39 /\ tmeasure nest_tb (tinit nest_tb) = 58.
+Proof.
+  vm_compute. repeat split; try reflexivity; try (repeat (first [left; reflexivity | right])).
+  intro H. repeat (destruct H as [H|H]; [discriminate|]). exact H.
+Qed.
+
+(** The nested task 10 is a descendant of the body in that run (premise of C16_after_body_spawned). *)
+Example C16_nest_desc :
+  exists x, desc (rs (trun MFixed nest_tb nest_sched (tinit nest_tb))) (nb nest_tb) x /\ t_name x = 10%N.
+Proof.
+  eexists. split.
+  - eapply (desc_child _ _ 10%N _ 1%N); [vm_compute; reflexivity | reflexivity | vm_compute; reflexivity |].
+    apply desc_root. vm_compute. reflexivity.
+  - reflexivity.
+Qed.
+
+(** A handler that finished failed, surrounding context failed (right-hand side of C16_containment_iff
+    and the [OwnFail] case of C16_handler_runs): the success handler 3 of [cancel_tb]. *)
+Example C16_cancel_run :
+  let t := trun MFixed cancel_tb cancel_sched (tinit cancel_tb) in
+  tfinal t = true /\ ctx_failed (tb_par cancel_tb) (rs t) = true
+  /\ (exists x, T (rs t) 3%N x /\ t_st x = Finished false /\ nth_error (t_body x) 0 = Some CFail)
+  /\ In (ECmdEnd 3%N 0 false) (log (rs t))
+  /\ (exists x, T (rs t) 1%N x /\ t_st x = Finished true).
+Proof.
+  vm_compute. repeat split; try reflexivity.
+  - eexists. repeat split; reflexivity.
+  - repeat (first [left; reflexivity | right]).
+  - eexists. repeat split; reflexivity.
+Qed.
+
+(** A reachable state that is not final (premise of C16_progress). *)
+Example C16_not_final : tfinal (trun MFixed nest_tb [TLTry; TLTask 1%N] (tinit nest_tb)) = false.
 Proof. vm_compute. reflexivity. Qed.
